@@ -127,6 +127,31 @@ Theorem C18_template_group_reference : forall ng names ident d,
 Proof. exact template_group_reference. Qed.
 Print Assumptions C18_template_group_reference.
 
+(** ** The headline of the property, as far as it is PROVED.
+
+    PARTIAL.  Statement C18 says: errors that stem only from the text are reported as SYNTAX_ERROR
+    / VALIDATION_ERROR or at the latest HARD_ERROR, never INTERNAL_ERROR.  Proved below for the
+    three text-driven mechanisms that are modelled: (1) whatever an instruction parser raises on a
+    text, (2) every integer expression of Python integer arithmetic, (3) every replacement
+    template.  MISSING (fuzzed by harness/c18.py, not proved): that no OTHER validator, symbol
+    resolution, matcher, transformer, program or actor code raises a non-HardError exception on
+    some text - the open known findings KF-C18-2 .. KF-C18-8 (and the repaired FIX-C18-3 .. FIX-C18-5) are counterexamples of exactly this
+    missing part (or of termination / BaseException, which the routing theorems put outside). *)
+Theorem C18_text_errors_never_internal_partial :
+  (forall (m : tc_status) (e : exc), wf_exc e = true -> subclass (e_cls e) EException = true ->
+     route m SInstrParse e = Ret (RAccess ACC_SYNTAX_ERROR)) /\
+  (forall e : iexpr, integer_validation true e = SOk \/ integer_validation true e = SFail FValidation) /\
+  (forall ng names ident t, parse_template ng names ident t <> TOracleMiss ->
+     replace_step true ng names ident t = SOk \/ replace_step true ng names ident t = SFail FHard).
+Proof.
+  repeat split.
+  - intros m e Hw Hs. exact (proj1 (parse_time_errors_are_syntax_errors m e Hw Hs)).
+  - exact integer_validation_never_internal.
+  - intros ng names ident t Hm. destruct (replacement_never_internal ng names ident t) as [H | [H | [_ H]]];
+      [left; exact H | right; exact H | contradiction].
+Qed.
+Print Assumptions C18_text_errors_never_internal_partial.
+
 (** ** Obligations over tables regenerated from the source / the running code on this run *)
 
 (** The exception classes named by every [except] clause of the anchored functions (read from
